@@ -3,6 +3,7 @@ use crate::ctx::Ctx;
 pub mod c01;
 pub mod c02;
 pub mod c03;
+pub mod c05;
 pub mod c11;
 pub mod c12;
 pub mod c13;
@@ -12,6 +13,7 @@ pub fn run(ctx: &mut Ctx) -> bool {
         "C01" => c01::run(ctx),
         "C02" => c02::run(ctx),
         "C03" => c03::run(ctx),
+        "C05" => c05::run(ctx),
         "C11" => c11::run(ctx),
         "C12" => c12::run(ctx),
         "C13" => c13::run(ctx),
